@@ -97,6 +97,11 @@ namespace cgi {
 				h(booster::system::error_code(errc::protocol_violation,cppcms_category));
 				return;
 			}
+			// the key/value scan below uses strlen: the last string must end inside the buffer
+			if(buffer_.size() > sep_ + 2 && buffer_[buffer_.size()-2]!=0) {
+				h(booster::system::error_code(errc::protocol_violation,cppcms_category));
+				return;
+			}
 
 			char const *p=&buffer_[sep_ + 1];
 			while(p < &buffer_.back()) {
